@@ -152,6 +152,20 @@ func maxi(a, b int) int {
 
 type SexpField SexpHash
 
+// valueStoredUnder finds the value stored under this very key object,
+// without comparing keys; for printing entries whose key HashGet
+// cannot compare.
+func (hash *SexpHash) valueStoredUnder(key Sexp) Sexp {
+	for _, bucket := range hash.Map {
+		for _, pair := range bucket {
+			if pair.Head == key {
+				return pair.Tail
+			}
+		}
+	}
+	return SexpNull
+}
+
 func (r SexpField) Type() *RegisteredType {
 	return r.GoStructFactory
 }
@@ -162,6 +176,11 @@ func (f *SexpField) FieldWidths() []int {
 	wide := []int{}
 	for _, key := range hash.KeyOrder {
 		val, err := hash.HashGet(nil, key)
+		if err != nil {
+			// a key that cannot be looked up again (e.g. an array
+			// holding a function) must not panic the printer.
+			val, err = hash.valueStoredUnder(key), nil
+		}
 		str := ""
 		if err == nil {
 			switch s := key.(type) {
@@ -187,6 +206,11 @@ func (f *SexpField) AlignString(pad []int) string {
 	spc := " "
 	for i, key := range hash.KeyOrder {
 		val, err := hash.HashGet(nil, key)
+		if err != nil {
+			// a key that cannot be looked up again (e.g. an array
+			// holding a function) must not panic the printer.
+			val, err = hash.valueStoredUnder(key), nil
+		}
 		r := ""
 		if err == nil {
 			switch s := key.(type) {
@@ -227,6 +251,11 @@ func (f *SexpField) SexpString(ps *PrintState) string {
 
 	for i, key := range hash.KeyOrder {
 		val, err := hash.HashGet(nil, key)
+		if err != nil {
+			// a key that cannot be looked up again (e.g. an array
+			// holding a function) must not panic the printer.
+			val, err = hash.valueStoredUnder(key), nil
+		}
 		if err == nil {
 			switch s := key.(type) {
 			case *SexpStr:
